@@ -577,6 +577,9 @@ example : (run (init 2 2) demoOps).2 =
     [.packetIn (some 1) [1,2] 4 7, .packetIn (some 2) [5] 2 8, .packetIn none [9] 1 9,
      .emit [1,2,3,4] 7, .nothing, .packetIn (some 1) [10,11] 3 3] := by decide
 example : Inv (init 2 2) := init_inv 2 2
+/-! `drop` releases without emitting, `setMiss` changes what later table misses carry, `other` changes nothing -/
+example : (run (init 2 9) [.arrive [1,2,3] 7 none, .other, .setMiss 1, .arrive [4,5,6] 8 none, .drop 1, .use 1, .other, .use 2]).2 =
+    [.packetIn (some 1) [1,2,3] 3 7, .nothing, .nothing, .packetIn (some 2) [4] 3 8, .nothing, .nothing, .nothing, .emit [4,5,6] 8] := by decide
 example : (run (init 2 9) [.arrive [1,2,3] 7 none, .useCtl 1 2, .use 1, .use 2]).2 =
     [.packetIn (some 1) [1,2,3] 3 7, .packetIn (some 2) [1,2] 3 7, .nothing, .emit [1,2,3] 7] := by decide
 
